@@ -2,12 +2,14 @@
 # Build the correspondence harness against /repo's current working tree (overlay, no edit of /repo).
 set -e
 export GOFLAGS=-mod=mod GOPROXY=off GOSUMDB=off GOTOOLCHAIN=local
-V=/verif
+V=${VERIF_ROOT:-$(cd "$(dirname "$0")/.." && pwd)}
+export V
 mkdir -p $V/build
 python3 - <<'PY'
 import json,glob,os
-files=sorted(glob.glob('/verif/harness/inject/*.go'))
+V=os.environ['V']
+files=sorted(glob.glob(V+'/harness/inject/*.go'))
 ov={"Replace":{ "/repo/internal/verifdrv/"+os.path.basename(f): f for f in files}}
-json.dump(ov,open('/verif/build/overlay.json','w'),indent=1)
+json.dump(ov,open(V+'/build/overlay.json','w'),indent=1)
 PY
 cd /repo && go build -tags verif -overlay $V/build/overlay.json -o $V/build/harness ./internal/verifdrv
